@@ -414,7 +414,9 @@ def check_state_case(case, impl):
 # part R: root operations
 
 
-def check_root_case(case, impl):
+def check_root_case(case, impl, found):
+    """Run one root operation and judge it; a hit of the root scope filter is appended to ``found``
+    (instead of being raised) so that the remaining oracles are still evaluated on the same case."""
     op = case["op"]
     scope = case["scope"]
     scopes = scope.split()
@@ -438,23 +440,31 @@ def check_root_case(case, impl):
 
     update_refusal = op == "set_root" and scopes == ["shared"] and not case["local"]
     invalid_scope = op in ("set_root", "unset_root") and scope not in ("own", "shared")
-    result, error = None, None
+    result, error, pending = None, None, None
     try:
         result = getattr(backend, op)(params, None)
     except RuntimeError as caught:
         error = caught
         if not (update_refusal or invalid_scope):
-            raise Violation({"oracle": "root-refusal", "op": op, "kind": "refused-without-reason"},
-                            f"{op} raised {caught!r} with pool_scope {scope!r}, local root {case['local']}", case)
+            pending = Violation({"oracle": "root-refusal", "op": op, "kind": "refused-without-reason"},
+                                f"{op} raised {caught!r} with pool_scope {scope!r}, local root {case['local']}", case)
     except Exception as caught:
-        raise Violation({"oracle": "unexpected-exception", "op": op, "error": type(caught).__name__},
-                        f"{op} raised {caught!r} with pool_scope {scope!r}", case)
+        pending = Violation({"oracle": "unexpected-exception", "op": op, "error": type(caught).__name__},
+                            f"{op} raised {caught!r} with pool_scope {scope!r}", case)
 
     calls = list(world.calls)
     transport_calls = [c[1] for c in calls if c[0] == "transport"]
     local_mutations = [c[1] for c in calls if c[0] == "local" and c[1] != "_check_root"]
     trace = f"pool_scope={scope!r} local_root={case['local']} pool_root={case['pool']} compare={case['compare']} calls={calls}"
     labels = []
+
+    # the transport of the root backend is the shared pool: it may be contacted only when 'shared' is enabled
+    if transport_calls and "shared" not in scopes:
+        found.append(Violation({"oracle": "root-scope-filter", "kind": "shared-disabled", "op": op},
+                               f"the shared pool was contacted although 'shared' is not in pool_scope; {trace}", case))
+        labels.append("root:pool-contacted-with-shared-disabled")
+    if pending is not None:
+        raise pending
 
     if error is not None:
         if transport_calls or local_mutations:
@@ -468,10 +478,6 @@ def check_root_case(case, impl):
         raise Violation({"oracle": "root-scope", "op": op, "kind": "transport-with-own-only"}, trace, case)
     if not own_enabled and local_mutations:
         raise Violation({"oracle": "root-scope", "op": op, "kind": "local-with-own-disabled"}, trace, case)
-    if transport_calls and "shared" not in scopes:
-        # observed, not judged: DESIGN.md limits the root oracle to the three rules above
-        labels.append("root:note:pool-contacted-with-shared-disabled")
-
     if op == "check_root":
         if result and not (case["local"] or (case["pool"] and scope != "own")):
             raise Violation({"oracle": "root-present-only-if-somewhere", "op": op}, trace, case)
@@ -504,9 +510,11 @@ def check_root_case(case, impl):
     return len(scopes) >= 2, labels
 
 
-def check(case, impl):
+def check(case, impl, found):
+    """Judge one case: raises the first Violation of the ordinary oracles; violations that must not stop the
+    evaluation of the other oracles (root scope filter) are appended to ``found``."""
     if case["part"] == "root":
-        nontrivial, labels = check_root_case(case, impl)
+        nontrivial, labels = check_root_case(case, impl, found)
         return nontrivial, [f"R:{case['op']}"] + labels
     nontrivial, labels = check_state_case(case, impl)
     return nontrivial, [f"S:{case['op']}", f"S:sources={len(case['sources'])}", f"S:env={case['env']}"] + labels
@@ -612,13 +620,22 @@ def run(ctx):
     impl = load()
 
     def body(case):
-        nontrivial, labels = check(case, impl)
+        # hypothesis part (state cases only): nothing is ever appended to the side list there
+        found = []
+        nontrivial, labels = check(case, impl, found)
+        if found:
+            raise found[0]
         ctx.case(case, nontrivial, labels + (["nontrivial"] if nontrivial else []))
 
     def enumerated(case):
+        found = []
         try:
-            body(case)
+            nontrivial, labels = check(case, impl, found)
+            ctx.case(case, nontrivial, labels + (["nontrivial"] if nontrivial else []))
         except Violation as violation:
+            ctx.record_violation(violation, case)
+        # recorded after the other oracles were evaluated; a listed (known) signature is only counted
+        for violation in found:
             ctx.record_violation(violation, case)
 
     for case in (REGRESSIONS if ctx.shard == 0 else []):
@@ -640,8 +657,9 @@ def run(ctx):
 
 
 def replay(ctx, case):
+    found = []
     try:
-        check(case, load())
+        check(case, load(), found)
     except Violation as violation:
-        return [violation]
-    return []
+        found.append(violation)
+    return found
